@@ -60,7 +60,31 @@ func LoadProgram(repo string, tags string, patterns []string) (*Program, error) 
 	for _, sp := range prog.AllPackages() {
 		p.Pkgs[sp.Pkg.Path()] = sp
 	}
-	for fn := range ssautil.AllFunctions(prog) {
+	all := ssautil.AllFunctions(prog)
+	// methods of types that are never converted to an interface are not in AllFunctions
+	for _, sp := range prog.AllPackages() {
+		if !strings.HasPrefix(sp.Pkg.Path(), modPath) {
+			continue
+		}
+		for _, m := range sp.Members {
+			tm, ok := m.(*ssa.Type)
+			if !ok {
+				continue
+			}
+			for _, t := range []types.Type{tm.Type(), types.NewPointer(tm.Type())} {
+				ms := prog.MethodSets.MethodSet(t)
+				for i := 0; i < ms.Len(); i++ {
+					if fn := prog.MethodValue(ms.At(i)); fn != nil {
+						all[fn] = true
+						for _, af := range fn.AnonFuncs {
+							all[af] = true
+						}
+					}
+				}
+			}
+		}
+	}
+	for fn := range all {
 		if fn.Pkg == nil && fn.Synthetic != "" && fn.Parent() == nil {
 			// wrappers, thunks
 			continue
